@@ -22,7 +22,7 @@ RULE = (
     "supplied, or a drawn subset omitted and created by a constant-valued engine), NumPy step from arrays the caller keeps for the whole history and overwrites in place, NumPy step fed with the very "
     "next_states objects of the previous step (simulation loop), CasADi SX/MX step with caller-created symbols "
     "(all or a subset) evaluated at A or B, or CasADi step with engine symbols + to_function; each with a drawn "
-    "option subset. Non-trivial = >=3 operations, >=2 distinct value sets used and some (values, engine, options, "
+    "option subset and optionally without the optional model parameters delta/phi. Non-trivial = >=3 operations, >=2 distinct value sets used and some (values, engine, options, "
     "subset) repeated. Distinct = SHA-1 of the case."
 )
 BUDGET = {"quick": {"examples": 150, "shards": 4}, "thorough": {"fuzz_runs": 3000, "examples": 2000, "shards": 16}}
@@ -35,7 +35,7 @@ PARAMS = ("N", "lam", "L", "rho_max", "rho_crit", "v_free", "a", "turnrate", "C"
 
 @st.composite
 def cases(draw):
-    sp = draw(gen_nets.specs(max_ops=6))
+    sp = draw(gen_nets.specs(max_ops=6, force_delta_phi=True))
     A = draw(gen_nets.states(sp, finite_only=True))
     B = draw(gen_nets.states(sp, finite_only=True, negative=True))  # inadmissible values too: purity holds for all inputs
     keys = [[i, v] for i, s in A.items() for v in s]
@@ -49,6 +49,8 @@ def cases(draw):
             op["omit"] = draw(st.lists(st.sampled_from(keys), min_size=1, max_size=3, unique_by=lambda k: tuple(k)))
         if kind == "compile":
             op["sym"] = draw(st.sampled_from(["SX", "MX"]))
+        if draw(st.integers(0, 2)) == 0:
+            op["drop"] = draw(st.sampled_from([["delta"], ["phi"], ["delta", "phi"]]))  # optional model parameters omitted in this step
         if draw(st.integers(0, 3)) == 0 and ops:
             op = dict(draw(st.sampled_from(ops)))  # exact repetition of an earlier operation
         ops.append(op)
@@ -113,7 +115,7 @@ class Supplied:
 def run_op(ctx, sp, op, values, bundle, prev_next, shared, persist=None):
     """Executes op on the network bundle; returns (numeric next or None, Supplied)."""
     net, els, _ = bundle
-    pars = S.pars_kwargs(sp)
+    pars = {k: v for k, v in S.pars_kwargs(sp).items() if k not in op.get("drop", [])}
     opts = S.opts_kwargs(op["opts"])
     state = values[op["vals"]]
     omit = {tuple(k) for k in op.get("omit", [])}
